@@ -61,7 +61,7 @@ for SRC, tagp in SOURCES:
         if sid == "C07-1":
             meta["note"] = "does not apply after fix 091861d (same lines); rebased as C07-1r"
         if sid == "C10-r6-1":
-            meta["note"] = "NOT detected by any check: the level 1/2 finish kernel only fails once total_in + avail_in passes 2^32, and no check compresses a stream of 4 GiB (DESIGN.md sections 5 and 8)"
+            meta["note"] = "not detected by the quick tier: the level 1/2 finish kernel only fails once total_in + avail_in passes 2^32; the THOROUGH tier of C10 (eng_big: streams of 2^32 + delta bytes) reports it as big-stream:no-termination:level1"
         if sid == "C14-r4-1":
             meta["note"] = "NOT detected by any check, deliberately: it needs a one-shot call retried on the same struct without re-initialisation after STATELESS_OVERFLOW; the unchanged library does not support that pattern either (a retried gzip/zlib one-shot call returns COMP_OK for a stream without wrapper header), nothing documents it and no listed property claims it (DESIGN.md section 5)"
         json.dump(meta, open(os.path.join(out, "meta.json"), "w"), indent=1)
